@@ -90,7 +90,23 @@ fn check_inner(m: usize, t: usize, w: usize) -> Option<String> {
     let ws = WSCONST[w];
     let bytes = model_bytes(m);
     let (model, _) = Model::read_slice(&bytes).ok()?;
-    let mut tok = VaporettoTokenizer::new(model, ws).ok()?;
+    let tok = VaporettoTokenizer::new(model, ws).ok()?;
+    if let Some(d) = check_tokenizer(tok, &text, ws, &bytes) {
+        return Some(d);
+    }
+    // the other constructor: a tokenizer deserialised from the bytes of a serialised predictor must behave the same
+    let (model3, _) = Model::read_slice(&bytes).ok()?;
+    let ser = Predictor::new(model3, false).ok()?.serialize_to_vec().ok()?;
+    let ser: &'static [u8] = Box::leak(ser.into_boxed_slice());
+    let (tok2, rest) = match unsafe { VaporettoTokenizer::deserialize_unchecked(ser, ws) } { Ok(x) => x, Err(e) => return Some(format!("deserialize_unchecked rejects a serialised predictor: {}", e)) };
+    if !rest.is_empty() {
+        return Some("deserialize_unchecked leaves bytes of a serialised predictor unread".into());
+    }
+    check_tokenizer(tok2, &text, ws, &bytes).map(|d| format!("deserialised tokenizer: {}", d))
+}
+
+fn check_tokenizer(mut tok: VaporettoTokenizer, text: &str, ws: &str, bytes: &[u8]) -> Option<String> {
+    let text = text.to_string();
     let mut stream = tok.token_stream(&text);
     let mut toks = vec![];
     while stream.advance() {
@@ -118,7 +134,7 @@ fn check_inner(m: usize, t: usize, w: usize) -> Option<String> {
     if at != text.len() {
         return Some(format!("tokens end at byte {} of {}", at, text.len()));
     }
-    let (model2, _) = Model::read_slice(&bytes).ok()?;
+    let (model2, _) = Model::read_slice(bytes).ok()?;
     let p = Predictor::new(model2, false).ok()?;
     let want = core_breaks(&p, &text, ws);
     let got: Vec<usize> = toks.iter().map(|t| t.offset_to).collect();
